@@ -34,7 +34,7 @@ def oracle_serial(r: dict) -> list[str]:
         if any(t.startswith('cs:') for t in toks):
             cur = next(t for t in toks if t.startswith('cs:'))[3:].split('/')[0]
         w = op.split()
-        if w[0] in ('exit', 'pexit', 'xreset', 'xclose', 'kclose') and cur is not None:
+        if w[0] in ('exit', 'exitx', 'pexit', 'xreset', 'xclose', 'kclose') and cur is not None:
             # the child of run `cur` has exited: the run must be finished now
             if 'ps:finished' not in toks:
                 msgs.append(f'the child of run {cur} exited ({op!r}) but finished was not published')
@@ -43,11 +43,11 @@ def oracle_serial(r: dict) -> list[str]:
                 msgs.append(f'run {cur}: run_info states {seq}')
             if seq.count('finished') != 1 or seq.count('running') != 1:
                 msgs.append(f'run {cur} reported {seq.count("running")}× running and {seq.count("finished")}× finished')
-            if w[0] in ('exit', 'pexit') or 'ret:reset' not in rep:
+            if w[0] in ('exit', 'exitx', 'pexit') or 'ret:reset' not in rep:
                 want = '-' if w[1] == '-' else w[1]
-                if g['fe'][0] == 'N' and w[0] in ('exit', 'pexit'):
+                if g['fe'][0] == 'N' and w[0] in ('exit', 'exitx', 'pexit'):
                     msgs.append(f'after run {cur} ended format_exception() is None (no result recorded)')
-                if w[0] in ('exit', 'pexit') and g['rs'][0] != want:
+                if w[0] in ('exit', 'exitx', 'pexit') and g['rs'][0] != want:
                     msgs.append(f'run {cur} ended with result {want}, result() reports {g["rs"][0]}')
             if g['lc'][0] != '0':
                 msgs.append(f'run {cur} finished but its child is alive')
@@ -74,6 +74,9 @@ def real_specs(chk: common.Check) -> list[dict]:
 
     def add(**k: Any) -> None:
         k.setdefault('timeout', 30)
+        if (k.get('signal') or {}).get('kind') == 'interrupt':
+            # where is the child if the run does not end? (its stacks are dumped shortly before the time-out; used to recognise F-G5)
+            k.update(probe=True, probe_nolog=True, probe_dump_after=k['timeout'] - 8)
         specs.append(k)
     pol_next = {'kind': 'all', 'command': 'next'}
     pol_step = {'kind': 'all', 'command': 'step'}
@@ -109,6 +112,17 @@ def lock_held_by_dead_child(rec: dict) -> bool:
     waits for it forever, so the sentinel never reaches the monitor."""
     st = (rec or {}).get('stacks_at_timeout') or {}
     return any(any('queues.py' in fr and '_feed' in fr for fr in frames) and th.startswith('QueueFeederThread') for th, frames in st.items())
+
+
+def interrupted_inside_queue_put(r: dict) -> bool:
+    """F-G5's mechanism: the child's main thread blocks for ever acquiring the outgoing queue's `_notempty` lock in `Queue.put`: an
+    earlier `put` was cut by the KeyboardInterrupt after it had taken that lock and before the with-block could release it"""
+    for block in (r.get('child_stacks') or '').split('\nThread ')[0:] + (r.get('child_stacks') or '').split('\nCurrent thread ')[1:]:
+        lines = [l.strip() for l in block.splitlines() if l.strip().startswith('File ')]
+        if len(lines) >= 3 and 'threading.py' in lines[0] and 'in __enter__' in lines[0] and 'multiprocessing/queues.py' in lines[1] \
+                and 'in put' in lines[1] and any('nextline/spawned/__init__.py' in l and 'in main' in l for l in lines):
+            return True
+    return False
 
 
 def check_real(spec: dict, r: dict) -> list[str]:
@@ -175,6 +189,8 @@ def run(chk: common.Check) -> None:
             sig = None
             if 'never finished' in m[0] and spec['expect'] == 'hard' and lock_held_by_dead_child(r['rec']):
                 sig = 'child_died_holding_queue_write_lock'
-            oracle_fail.append(({'real_run': {k: v for k, v in spec.items()}, 'stacks': (r['rec'] or {}).get('stacks_at_timeout'),
+            if 'never finished' in m[0] and (spec.get('signal') or {}).get('kind') == 'interrupt' and interrupted_inside_queue_put(r):
+                sig = 'interrupt_inside_queue_put'
+            oracle_fail.append(({'real_run': {k: v for k, v in spec.items()}, 'stacks': (r['rec'] or {}).get('stacks_at_timeout'), 'child_stacks': (r.get('child_stacks') or '')[-4000:],
                                  'states': (r['rec'] or {}).get('states')}, m, sig))
     _life.finish(chk, 'C02', oracle_fail, dis, 'results, state and run_info publications, result()/format_exception()')
